@@ -235,48 +235,73 @@ def prependSegN (ty asn : Nat) : Nat → List Seg → List Seg
   | 0, l => l
   | n + 1, l => prependSegN ty asn n (prependSeg ty asn l)
 
+/-- next-hop action: a given address, the local address, the peer's address, or the next hop the
+    route had before any pre-policy defaulting (left alone when there was none) -/
+def actNh (cx : Ctx) (a : Option NhAct) (nh : Option Addr) : Option Addr :=
+  match a with
+  | none => nh
+  | some (.addr x) => some x
+  | some .self => some cx.localAddr
+  | some .peer => some cx.peerAddr
+  | some .unchanged => (match cx.origNh with | some o => some o | none => nh)
+
+/-- add / remove / replace standard communities; an empty result removes the attribute -/
+def actComm (a : Option (CAT × List Nat)) (attrs : List Attr) : List Attr :=
+  match a with
+  | none => attrs
+  | some (t, l) =>
+      let n := edit t (commsOf attrs) l
+      if n.isEmpty then without COMMUNITY attrs else put COMMUNITY (.bin (enc4 n)) attrs
+
+def actLp (a : Option Nat) (attrs : List Attr) : List Attr :=
+  match a with
+  | none => attrs
+  | some v => put LOCAL_PREF (.val v) attrs
+
+/-- MED: add the signed value to the current MED (0 if absent) or set it, kept within u32 -/
+def actMed (a : Option (Bool × Int)) (attrs : List Attr) : List Attr :=
+  match a with
+  | none => attrs
+  | some (isMod, v) =>
+      put MED (.val (if isMod then clampU32 (((valOf MED attrs).getD 0 : Nat) + v) else clampU32 v)) attrs
+
+/-- AS-path prepend: `rep` times the given AS, or the leftmost AS of the path if asked for and
+    there is one; a sequence towards ordinary peers, a confederation sequence towards members -/
+def actPrep (cx : Ctx) (a : Option (Nat × Nat × Bool)) (attrs : List Attr) : List Attr :=
+  match a with
+  | none => attrs
+  | some (asn, rep, leftMost) =>
+      if rep = 0 then attrs
+      else
+        let segs := match pathOf attrs with | some (some s) => s | _ => []
+        let flags := (attrOf AS_PATH attrs).elim 64 (·.flags)
+        let x := if leftMost then (flatAsns segs).head?.getD asn else asn
+        without AS_PATH attrs ++ [⟨AS_PATH, flags, .bin (encSegs (prependSegN (if cx.confed then 3 else 2) x rep segs))⟩]
+
+def actExt (a : Option (CAT × List Bytes)) (attrs : List Attr) : List Attr :=
+  match a with
+  | none => attrs
+  | some (t, l) =>
+      let n := edit t (extsOf attrs) l
+      if n.isEmpty then without EXT_COMMUNITY attrs else put EXT_COMMUNITY (.bin (enc8 n)) attrs
+
+def actLarge (a : Option (CAT × List (Nat × Nat × Nat))) (attrs : List Attr) : List Attr :=
+  match a with
+  | none => attrs
+  | some (t, l) =>
+      let n := edit t (largesOf attrs) l
+      if n.isEmpty then without LARGE_COMMUNITY attrs else put LARGE_COMMUNITY (.bin (enc12 n)) attrs
+
+def actOrigin (a : Option Nat) (attrs : List Attr) : List Attr :=
+  match a with
+  | none => attrs
+  | some v => put ORIGIN (.val v) attrs
+
+/-- all actions of one statement (they rewrite different attributes) -/
 def applyActs (cx : Ctx) (a : Actions) (st : St) : St :=
-  let nh := match a.nexthop with
-    | none => st.nh
-    | some (.addr x) => some x
-    | some .self => some cx.localAddr
-    | some .peer => some cx.peerAddr
-    | some .unchanged => (match cx.origNh with | some o => some o | none => st.nh)
-  let at1 := match a.community with
-    | none => st.attrs
-    | some (t, l) =>
-        let n := edit t (commsOf st.attrs) l
-        if n.isEmpty then without COMMUNITY st.attrs else put COMMUNITY (.bin (enc4 n)) st.attrs
-  let at2 := match a.localPref with
-    | none => at1
-    | some v => put LOCAL_PREF (.val v) at1
-  let at3 := match a.med with
-    | none => at2
-    | some (isMod, v) =>
-        put MED (.val (if isMod then clampU32 (((valOf MED at2).getD 0 : Nat) + v) else clampU32 v)) at2
-  let at4 := match a.asPrepend with
-    | none => at3
-    | some (asn, rep, leftMost) =>
-        if rep = 0 then at3
-        else
-          let segs := match pathOf at3 with | some (some s) => s | _ => []
-          let flags := (attrOf AS_PATH at3).elim 64 (·.flags)
-          let x := if leftMost then (flatAsns segs).head?.getD asn else asn
-          without AS_PATH at3 ++ [⟨AS_PATH, flags, .bin (encSegs (prependSegN (if cx.confed then 3 else 2) x rep segs))⟩]
-  let at5 := match a.ext with
-    | none => at4
-    | some (t, l) =>
-        let n := edit t (extsOf at4) l
-        if n.isEmpty then without EXT_COMMUNITY at4 else put EXT_COMMUNITY (.bin (enc8 n)) at4
-  let at6 := match a.large with
-    | none => at5
-    | some (t, l) =>
-        let n := edit t (largesOf at5) l
-        if n.isEmpty then without LARGE_COMMUNITY at5 else put LARGE_COMMUNITY (.bin (enc12 n)) at5
-  let at7 := match a.origin with
-    | none => at6
-    | some v => put ORIGIN (.val v) at6
-  ⟨at7, nh⟩
+  ⟨actOrigin a.origin (actLarge a.large (actExt a.ext (actPrep cx a.asPrepend
+      (actMed a.med (actLp a.localPref (actComm a.community st.attrs)))))),
+   actNh cx a.nexthop st.nh⟩
 
 /-! ## the chain -/
 
@@ -327,7 +352,7 @@ def checkProbe (env : RegexEnv) (d : Dir) (dflt : Disp) (stmts : List RStmt) (r 
     | some c =>
         -- classification only: is the observation what the known deviation would produce?
         match compareRes d (refChain env { asRegex := false } (ctxOf d r) dflt stmts ⟨r.attrs, r.nh⟩) p with
-        | none => some (c ++ " feature=aspath-regex-ignored")
+        | none => some "aspath-regex-ignored"
         | some _ => some c
 
 def firstSome {α} (f : Nat → α → Option String) : Nat → List α → Option (Nat × String)
